@@ -4,21 +4,34 @@
     [..._refuted] example in Proofs/OptSemFacts.v showing it cannot be dropped.  A removed load
     either leaves the whole state as it was (the knowledge says which register N and Z describe),
     or rests on a look-ahead, and then the instruction(s) looked at behave the same whatever N and Z
-    are ([C02_removal_dead]).  What is NOT proved: the global simulation of [run] on whole
-    programs. *)
+    are ([C02_removal_dead]).
+
+    GLOBAL statement, for straight-line code (end of this file; definitions in Model/OptSim.v,
+    proofs in Proofs/OptSimFacts.v): executing [fst (optimize c)] gives the same final state as
+    executing [c] -- registers, stack pointer, the four flags, memory
+    ([C02_optimize_straight_sound]; on [Sem.run]: [C02_optimize_straight_run]).  What is NOT
+    proved: the global simulation for code with labels, branches, calls or stack operations. *)
 From Coq Require Import String Ascii List Bool NArith ZArith.
 From CC Require Import Base.Str Asm.Lines M6502.Isa Asm.Operand M6502.Sem
-     Model.Optimize Model.OptSem Proofs.OptSemFacts.
+     Model.Optimize Model.OptSem Model.OptSim Proofs.OptSemFacts Proofs.OptSimFacts.
+From CC Require Proofs.GenTemplatesFacts.
 Import ListNotations.
 
 Theorem C02_transfer_sound : forall cfg k i ahead s s',
   ports cfg = [] -> bytes_ok s ->
   (i_mn i = PHA \/ i_mn i = PHP -> know_off_stack cfg k s) ->
   ind_legal i -> xfer_no_zp_y cfg k i ->
-  snd (transfer k i ahead) = false ->
   know_sound cfg k s -> steps_to cfg i s s' ->
+  snd (transfer k i ahead) = false ->
   know_sound cfg (fst (transfer k i ahead)) s'.
 Proof. exact transfer_sound. Qed.
+
+(** when [transfer] asks for the removal of the load, the knowledge it returns is sound for the
+    state in which the load is not executed *)
+Theorem C02_transfer_removed_sound : forall cfg k i ahead s,
+  know_sound cfg k s -> snd (transfer k i ahead) = true ->
+  know_sound cfg (fst (transfer k i ahead)) s.
+Proof. exact transfer_removed_sound. Qed.
 
 Theorem C02_redundant_load_sound : forall cfg k i s s',
   ports cfg = [] -> know_sound cfg k s -> steps_to cfg i s s' ->
@@ -121,6 +134,20 @@ Theorem C02_rule_sta_lda : forall cfg i1 i2 s s1 s2,
   steps_to cfg i1 s s1 -> steps_to cfg i2 s1 s2 -> eq_mod_nz s2 s1.
 Proof. exact rule_sta_lda. Qed.
 
+(** as the optimiser applies them now (N/Z describe A): nothing changes at all *)
+Theorem C02_rule_sta_lda_exact : forall cfg k i1 i2 s s1 s2,
+  ports cfg = [] -> i_mn i1 = STA -> i_mn i2 = LDA -> i_op i1 = i_op i2 ->
+  ptr_not_hit cfg i1 s ->
+  know_sound cfg k s1 -> k_flags k = FA ->
+  steps_to cfg i1 s s1 -> steps_to cfg i2 s1 s2 -> eq_state s2 s1.
+Proof. exact rule_sta_lda_exact. Qed.
+
+Theorem C02_rule_ora_zero_exact : forall cfg k i s s',
+  bytes_ok s -> i_mn i = ORA -> i_op i = "#0"%string ->
+  know_sound cfg k s -> k_flags k = FA ->
+  steps_to cfg i s s' -> eq_state s' s.
+Proof. exact rule_ora_zero_exact. Qed.
+
 Theorem C02_rule_pla_pha : forall cfg i1 i2 s s1 s2,
   bytes_ok s -> i_mn i1 = PLA -> i_mn i2 = PHA ->
   steps_to cfg i1 s s1 -> steps_to cfg i2 s1 s2 -> eq_mod_anzc s2 s.
@@ -130,3 +157,77 @@ Definition C02_rule_transfer_pair := rule_transfer_pair.
 Definition C02_rule_ora_zero := rule_ora_zero.
 Definition C02_rule_swap_lda_carry := rule_swap_lda_carry.
 Definition C02_rule_load_load := rule_load_load.
+
+(** * The global simulation theorem on straight-line code *)
+
+(** [exec_straight] (Model/OptSim.v) is [Sem.run] on straight-line code *)
+Theorem C02_exec_straight_runs_to : forall cfg c s s',
+  exec_straight cfg c s = Some s' -> GenTemplatesFacts.runs_to cfg c s s'.
+Proof. exact exec_straight_runs_to. Qed.
+
+Theorem C02_runs_to_exec_straight : forall cfg c s s',
+  straight_ok cfg c = true -> GenTemplatesFacts.runs_to cfg c s s' -> exec_straight cfg c s = Some s'.
+Proof. exact runs_to_exec_straight. Qed.
+
+(** all rules: the optimised line list ends in the same state *)
+Theorem C02_optimize_straight_sound : forall cfg c s s',
+  ports cfg = [] -> bytes_ok s -> straight_ok cfg c = true ->
+  exec_straight cfg c s = Some s' ->
+  exists s'', exec_straight cfg (fst (optimize c)) s = Some s'' /\ eq_state s'' s'.
+Proof. exact optimize_straight_sound. Qed.
+
+(** the same on [Sem.run] *)
+Theorem C02_optimize_straight_run : forall cfg c s s',
+  ports cfg = [] -> bytes_ok s -> straight_ok cfg c = true ->
+  GenTemplatesFacts.runs_to cfg c s s' ->
+  exists s'', GenTemplatesFacts.runs_to cfg (fst (optimize c)) s s'' /\ eq_state s'' s'.
+Proof. exact optimize_straight_run. Qed.
+
+(** the invariant of the walk is preserved by [step] *)
+Theorem C02_step_inv : forall cfg s0 sF, ports cfg = [] -> forall z,
+  Inv cfg s0 sF z ->
+  match step z with
+  | Done c _ => exists sE, exec_straight cfg c s0 = Some sE /\ eq_state sE sF
+  | Next z' => Inv cfg s0 sF z'
+  end.
+Proof. intros cfg s0 sF HP z. exact (step_inv cfg s0 sF HP z). Qed.
+
+(** non-vacuity: a program on which [optimize] removes three instructions (one of them on the
+    strength of the look-ahead) and swaps two *)
+Theorem C02_optimize_straight_sound_example :
+  ports sim_cfg = [] /\ bytes_ok sim_state /\ straight_ok sim_cfg sim_code = true /\
+  exists s' s'', exec_straight sim_cfg sim_code sim_state = Some s' /\
+                 exec_straight sim_cfg (fst (optimize sim_code)) sim_state = Some s'' /\
+                 eq_state s'' s' /\ rA s' = 12%Z /\ rX s' = 2%Z /\ rY s' = 5%Z /\
+                 mget (mem s') 128 = 12%Z.
+Proof. exact optimize_straight_sound_example. Qed.
+
+Theorem C02_sim_code_optimized :
+  optimize sim_code =
+  ([sim_ins CLC ""; sim_ins LDA "#3"; sim_ins ADC "w"; sim_ins STA "w"; Dummy;
+    Dummy; sim_ins LDX "#2"; Cmt "y := t[x+1] + 1"; sim_ins LDY "t+1,X";
+    Dummy; sim_ins INY ""], 3%N).
+Proof. exact sim_code_optimized. Qed.
+
+(** regression: the four programs on which the model, before the repairs of "STA o; LDA o",
+    "ORA #0" and of the knowledge recorded with a look-ahead removal, changed the final Z flag *)
+Theorem C02_sta_lda_fixed :
+  nz_regression [sim_ins LDA "#0"; sim_ins LDX "#1"; sim_ins STA "w"; sim_ins LDA "w"] 0%N.
+Proof. exact sta_lda_fixed. Qed.
+
+Theorem C02_ora_zero_fixed :
+  nz_regression [sim_ins LDA "#0"; sim_ins LDX "#1"; sim_ins ORA "#0"] 0%N.
+Proof. exact ora_zero_fixed. Qed.
+
+Theorem C02_lookahead_sta_fixed :
+  nz_regression [sim_ins LDA "#0"; sim_ins LDX "#1"; sim_ins LDA "#0"; sim_ins STA "w";
+                 sim_ins LDA "#0"] 1%N.
+Proof. exact lookahead_sta_fixed. Qed.
+
+Theorem C02_lookahead_ldy_fixed :
+  nz_regression [sim_ins LDY "#5"; sim_ins LDA "#0"; sim_ins TAX ""; sim_ins LDY "#5";
+                 sim_ins TXA ""; sim_ins LDY "#5"] 2%N.
+Proof. exact lookahead_ldy_fixed. Qed.
+
+(** the ",Y" clause of [straight_ok] cannot be dropped *)
+Definition C02_zp_y_changes_a := zp_y_changes_a.
